@@ -4,6 +4,7 @@ go 1.23.0
 
 require (
 	github.com/go-critic/go-critic v0.0.0
+	github.com/go-toolsmith/astcast v1.1.0
 	golang.org/x/tools v0.32.0
 )
 
